@@ -229,11 +229,40 @@ func checkZeroReadFatal(c *Ctx) {
 		R.Fail("R10.6", "packets.ReadAndParse#anchor", 0, "", "anchor packets.ReadAndParse no longer resolves")
 		return
 	}
-	ea := NewErrAnalysis(c)
 	fn := core.FuncName(f)
-	rps, _ := core.ReturnPaths(c.P, f, 2000)
+	// inlined paths: the read and its classification may sit in a helper of the package
+	rps := InlinedPaths(c.P, f, inlineOpts{pkg: core.FuncPkg(f), stop: hasLoop})
 	n := 0
 	for _, rp := range rps {
+		// R10.6b: on a path where the read's error is not known to be nil, what is returned carries that error (its cause is
+		// what tells a dead handle from a closed one)
+		var readErr ssa.Value
+		for _, ev := range rp.Events {
+			if call, ok := ev.Instr.(*ssa.Call); ok && ev.Kind == "call" && call.Common().IsInvoke() && call.Common().Method.Name() == "Read" && isNamed(call.Common().Value.Type(), core.ModulePath+"/packets", "Source") {
+				for _, r := range *call.Referrers() {
+					if ex, ok := r.(*ssa.Extract); ok && ex.Index == 1 {
+						readErr = ex
+					}
+				}
+			}
+		}
+		if readErr != nil && len(rp.Results) > 0 && !rp.Results[0].IsConst("nil") {
+			known := false
+			for _, a := range rp.Atoms {
+				nn := a.Norm()
+				if nn.Sign && nn.Cond.Op == "binop" && nn.Cond.Name == "==" && nn.Cond.Args[1].IsConst("nil") && nn.Cond.Args[0].Val == readErr {
+					known = true
+				}
+			}
+			if !known {
+				key := fmt.Sprintf("%s#read-error-kept", fn)
+				if rv := rp.Results[0].Val; rv != nil && wrapsValue(rv, readErr, 0) {
+					R.OK("R10.6", key, f.Pos(), fn, "a failed read is reported with its cause")
+				} else {
+					R.FailPath("R10.6", key, f.Pos(), fn, "a path on which the capture read may have failed returns "+rp.Results[0].String()+", which does not carry the read's error: the cause of a broken handle is lost", rp.Desc)
+				}
+			}
+		}
 		zero, readOK := false, false
 		for _, a := range rp.Atoms {
 			nn := a.Norm()
@@ -249,12 +278,12 @@ func checkZeroReadFatal(c *Ctx) {
 			continue
 		}
 		n++
-		retryable, isNil := false, rp.Results[0].IsConst("nil")
-		for _, e := range ea.classOf(rp.Ret.Results[0], f, map[ssa.Value]bool{}) {
-			if e.Retryable() {
-				retryable = true
-			}
-		}
+		// what this very path returns: a retryable wrapper is a freshly built ReceiveProbeNoPktError / BadPacketError
+		isNil := rp.Results[0].IsConst("nil")
+		retryable := rp.Results[0].Has(func(x *core.Term) bool {
+			al, ok := x.Val.(*ssa.Alloc)
+			return ok && x.Op == "alloc" && (isNamed(al.Type(), core.ModulePath+"/common", "ReceiveProbeNoPktError") || isNamed(al.Type(), core.ModulePath+"/common", "BadPacketError"))
+		})
 		R.Check(!retryable && !isNil, "R10.6", fn+"#zero-length-read", rp.Ret.Pos(), fn, "a zero-length read fails the run", "a zero-length read of the capture handle is reported as a retryable (skipped) condition or as success: a broken handle would yield a partial or empty path as a success")
 	}
 	R.Floor("R10.6:zero-read-paths", n, 1)
